@@ -158,7 +158,7 @@ def run(tier, seed):
                  "lib/lha_file_header.c, lib/ext_header.c, lib/lha_basic_reader.c): every path to a successful header "
                  "return crosses the level-0/1 checksum comparison, the common-CRC comparison (when the flag is set), the "
                  "per-level length rules, the level dispatch and the name/path presence rule; the first failing header "
-                 "sets the sticky end-of-archive flag. Decides the wiring of the checks for all inputs at once; does not "
+                 "sets the sticky end-of-archive flag, and a NULL return of the basic reader leaves no current entry behind. Decides the wiring of the checks for all inputs at once; does not "
                  "decide the sufficiency of the numeric constants of the length rules.")
     with Context(tier) as ctx:
         from .. import selfcheck
